@@ -3,7 +3,7 @@
 
 use blots_core::ast::SpannedExpr;
 use blots_core::environment::Environment;
-use blots_core::expressions::{evaluate_ast, pairs_to_expr};
+use blots_core::expressions::{evaluate_ast, evaluate_pairs};
 use blots_core::heap::Heap;
 use blots_core::parser::{Rule, get_pairs};
 use blots_core::values::{SerializableValue, Value};
@@ -83,41 +83,30 @@ impl Session {
     /// statement; stops after the first failure when `stop_on_error`.
     pub fn run(&self, source: &str, stop_on_error: bool) -> Vec<Outcome> {
         let mut out = vec![];
-        let parsed = catch_unwind(AssertUnwindSafe(|| {
-            let pairs = match get_pairs(source) {
-                Ok(p) => p,
-                Err(e) => return Err(Outcome::ParseErr(e.to_string())),
-            };
-            let mut stmts: Vec<SpannedExpr> = vec![];
-            for pair in pairs {
-                if pair.as_rule() == Rule::statement {
-                    if let Some(inner) = pair.into_inner().next() {
-                        match inner.as_rule() {
-                            Rule::expression | Rule::output_declaration => {
-                                match pairs_to_expr(inner.into_inner()) {
-                                    Ok(e) => stmts.push(e),
-                                    Err(e) => return Err(Outcome::Err(format!("ast: {e}"))),
-                                }
-                            }
-                            _ => {}
-                        }
-                    }
-                }
-            }
-            Ok(stmts)
-        }));
-        let stmts = match parsed {
-            Ok(Ok(s)) => s,
-            Ok(Err(o)) => return vec![o],
+        let pairs = match catch_unwind(AssertUnwindSafe(|| get_pairs(source))) {
+            Ok(Ok(p)) => p,
+            Ok(Err(e)) => return vec![Outcome::ParseErr(e.to_string())],
             Err(p) => return vec![Outcome::Panic(panic_msg(p))],
         };
-        let src_rc: Rc<str> = source.into();
-        for st in stmts {
-            let o = self.eval_ast(&st, src_rc.clone());
-            let failed = !o.is_ok();
-            out.push(o);
-            if failed && stop_on_error {
-                break;
+        for pair in pairs {
+            if pair.as_rule() != Rule::statement { continue; }
+            let inner = match pair.into_inner().next() { Some(i) => i, None => continue };
+            match inner.as_rule() {
+                Rule::expression | Rule::output_declaration => {
+                    // the entry point the CLI, the REPL and the WASM binding use for one statement
+                    let r = catch_unwind(AssertUnwindSafe(|| {
+                        evaluate_pairs(inner.into_inner(), Rc::clone(&self.heap), Rc::clone(&self.env), 0, source)
+                    }));
+                    let o = match r {
+                        Ok(Ok(v)) => Outcome::Ok(v),
+                        Ok(Err(e)) => Outcome::Err(e.message.clone()),
+                        Err(p) => Outcome::Panic(panic_msg(p)),
+                    };
+                    let failed = !o.is_ok();
+                    out.push(o);
+                    if failed && stop_on_error { break; }
+                }
+                _ => {}
             }
         }
         out
